@@ -78,7 +78,30 @@ func pathOfAddr(c *Ctx, a ssa.Value) string {
 	return pathOfVal(c, a)
 }
 
-func transfersOf(c *Ctx, fn *ssa.Function) []transfer {
+func transfersOf(c *Ctx, fn *ssa.Function) []transfer { return transfersOfD(c, fn, 0) }
+
+// substParam rewrites a callee path rooted at one of its parameters into the caller's path.
+func substParam(path string, sub map[string]string) string {
+	for name, actual := range sub {
+		if path == name {
+			return actual
+		}
+		for _, sep := range []string{".", "[", ")"} {
+			if strings.HasPrefix(path, name+sep) {
+				return actual + path[len(name):]
+			}
+		}
+		if strings.HasPrefix(path, "len("+name+")") {
+			return "len(" + actual + ")" + path[len("len("+name+")"):]
+		}
+		if strings.HasPrefix(path, "narrowed("+name) {
+			return "narrowed(" + substParam(path[len("narrowed("):], sub)
+		}
+	}
+	return path
+}
+
+func transfersOfD(c *Ctx, fn *ssa.Function, depth int) []transfer {
 	var out []transfer
 	for _, b := range fn.Blocks {
 		for _, in := range b.Instrs {
@@ -90,9 +113,17 @@ func transfersOf(c *Ctx, fn *ssa.Function) []transfer {
 					out = append(out, transfer{pathOfVal(c, x.Call.Args[0]) + "[*]", pathOfVal(c, x.Call.Args[1]) + "[*]", in})
 				}
 				if f := x.Call.StaticCallee(); f != nil && c.inModule(f) {
+					sub := map[string]string{}
 					for i, a := range x.Call.Args {
 						if i < len(f.Params) {
 							out = append(out, transfer{f.Name() + "(" + f.Params[i].Name() + ")", pathOfVal(c, a), in})
+							sub[f.Params[i].Name()] = pathOfVal(c, a)
+						}
+					}
+					// the data movements a helper performs on behalf of this function, in this function's terms
+					if depth < 2 && f.Blocks != nil && f != fn {
+						for _, t := range transfersOfD(c, f, depth+1) {
+							out = append(out, transfer{substParam(t.dst, sub), substParam(t.src, sub), in})
 						}
 					}
 				}
